@@ -245,6 +245,10 @@ bool StepScript(InterpreterEnv& env)
             if (env.p2shstack.empty())
                 return set_error(serror, SCRIPT_ERR_INVALID_STACK_OPERATION);
 
+            // (checked before anything is changed: a hand-over that fails leaves the session where it was)
+            if (env.p2shstack.back().size() > MAX_SCRIPT_SIZE)
+                return set_error(serror, SCRIPT_ERR_SCRIPT_SIZE);
+
             // Restore stack.
             is_p2sh = false;
             stack = env.p2shstack;
@@ -252,8 +256,6 @@ bool StepScript(InterpreterEnv& env)
 
             const valtype& pubKeySerialized = stack.back();
             CScript pubKey2(pubKeySerialized.begin(), pubKeySerialized.end());
-            if (pubKey2.size() > MAX_SCRIPT_SIZE)
-                return set_error(serror, SCRIPT_ERR_SCRIPT_SIZE);
             script = pubKey2;
             popstack(stack);
 
